@@ -32,6 +32,10 @@ func record(n int, seed int64, kinds []string) {
 		switch kind {
 		case "onceduel", "casduel":
 			trials = n * 200
+		case "mapduel":
+			trials = n * 60
+		case "rangeduel":
+			trials = n * 8
 		}
 		for i := 0; i < trials; i++ {
 			evs := trial(kind, rng)
@@ -87,8 +91,9 @@ func trial(kind string, rng *rand.Rand) []map[string]any {
 	var final func() map[string]any
 	var gen func(r *rand.Rand, t, j int) opcall
 
+	var prologue []opcall
 	switch kind {
-	case "map":
+	case "map", "rangeduel", "mapduel":
 		m := &adt.Map[string, int]{}
 		dflt := 90 + rng.Intn(5)
 		m.Default.SetConstructor(func() int { return dflt })
@@ -97,6 +102,33 @@ func trial(kind string, rng *rand.Rand) []map[string]any {
 		ops := []string{"store", "store", "delete", "delete", "load", "check", "ensurestore", "swap", "get", "ensuredefault", "len", "range", "range"}
 		gen = func(r *rand.Rand, t, j int) opcall {
 			return opcall{op: ops[r.Intn(len(ops))], k: keyNames[r.Intn(nk)], v: 10*(t+1) + j + 1}
+		}
+		if kind == "mapduel" {
+			// everybody claims the same key at the same moment: EnsureStore lets exactly one win, Swap / Get / Delete
+			// must fit in between
+			nk, callers, rounds, barrier = 1, 2+rng.Intn(3), 1, true
+			if rng.Intn(3) == 0 {
+				prologue = append(prologue, opcall{op: "store", k: "a", v: 5})
+				prologue = append(prologue, opcall{op: "delete", k: "a"})
+			}
+			duel := []string{"ensurestore", "ensurestore", "ensurestore", "swap", "get", "delete", "ensuredefault"}
+			gen = func(r *rand.Rand, t, j int) opcall {
+				return opcall{op: duel[r.Intn(len(duel))], k: "a", v: 10*(t+1) + j + 1}
+			}
+		}
+		if kind == "rangeduel" {
+			// a populated map; one goroutine traverses it (Range or Len) while the others store, swap and delete
+			nk, callers, rounds, barrier = 3, 2+rng.Intn(2), 1+rng.Intn(2), true
+			for i := 0; i < 2+rng.Intn(2); i++ {
+				prologue = append(prologue, opcall{op: "store", k: keyNames[i], v: 5 + i})
+			}
+			mut := []string{"store", "store", "delete", "swap", "ensurestore", "get"}
+			gen = func(r *rand.Rand, t, j int) opcall {
+				if t == 0 {
+					return opcall{op: []string{"range", "range", "len"}[r.Intn(3)]}
+				}
+				return opcall{op: mut[r.Intn(len(mut))], k: keyNames[r.Intn(nk)], v: 10*(t+1) + j + 1}
+			}
 		}
 		exec = func(c opcall, id int64) string {
 			switch c.op {
@@ -274,6 +306,11 @@ func trial(kind string, rng *rand.Rand) []map[string]any {
 		// (changing GOMAXPROCS stops the world: only when the value really changes)
 		runtime.GOMAXPROCS(procs)
 		curProcs = procs
+	}
+	for _, c := range prologue {
+		id := ids.Add(1)
+		lg.add(map[string]any{"ev": "call", "id": id, "op": c.op, "k": c.k, "v": c.v, "o": c.o, "f": c.f})
+		lg.add(map[string]any{"ev": "ret", "id": id, "res": exec(c, id)})
 	}
 	var arrived atomic.Int64
 	var wg sync.WaitGroup
